@@ -1,4 +1,5 @@
 from collections.abc import Hashable
+from threading import RLock
 from typing import Dict, Generic, Optional, TypeVar, cast
 
 T = TypeVar("T")
@@ -30,6 +31,9 @@ class LRUCache(Generic[T]):
         self.tail = CacheNode[T]("", cast(T, None))  # Least recently used
         self.head.next = self.tail
         self.tail.prev = self.head
+        # The cache is shared by all threads that render templates. The dict and the linked list
+        # must be updated together, so each operation holds the lock.
+        self._lock = RLock()
 
     def get(self, key: Hashable) -> Optional[T]:
         """
@@ -38,14 +42,15 @@ class LRUCache(Generic[T]):
         :param key: Key to look up in the cache.
         :return: Value associated with the key, or None if not found.
         """
-        if key in self.cache:
-            node = self.cache[key]
-            # Move the accessed node to the front (most recently used)
-            self._remove(node)
-            self._add_to_front(node)
-            return node.value
-        else:
-            return None  # Key not found
+        with self._lock:
+            if key in self.cache:
+                node = self.cache[key]
+                # Move the accessed node to the front (most recently used)
+                self._remove(node)
+                self._add_to_front(node)
+                return node.value
+            else:
+                return None  # Key not found
 
     def has(self, key: Hashable) -> bool:
         """
@@ -54,7 +59,8 @@ class LRUCache(Generic[T]):
         :param key: Key to check.
         :return: True if the key is in the cache, False otherwise.
         """
-        return key in self.cache
+        with self._lock:
+            return key in self.cache
 
     def set(self, key: Hashable, value: T) -> None:
         """
@@ -67,6 +73,10 @@ class LRUCache(Generic[T]):
         if self.maxsize is not None and self.maxsize <= 0:
             return
 
+        with self._lock:
+            self._set(key, value)
+
+    def _set(self, key: Hashable, value: T) -> None:
         if key in self.cache:
             node = self.cache[key]
             # Update the value
@@ -90,9 +100,10 @@ class LRUCache(Generic[T]):
 
     def clear(self) -> None:
         """Clear the cache."""
-        self.cache.clear()
-        self.head.next = self.tail
-        self.tail.prev = self.head
+        with self._lock:
+            self.cache.clear()
+            self.head.next = self.tail
+            self.tail.prev = self.head
 
     def _remove(self, node: CacheNode) -> None:
         """Remove a node from the doubly linked list."""
